@@ -77,12 +77,18 @@ def runCase (payload : String) : String :=
       let procPart := if proc = "1" then s!" proc:exit={rc}:entry=ran" else ""
       s!"seq fresh=same x=1 {scanPart}{procPart}\tnt=1"
     | _, _ => "bad-payload"
+  | ["proc", _tree, rc, _args, _form] =>
+    -- every way of starting it (`Props.C20.locate_started_file`): the file scanned is the file started
+    s!"proc srcmarker=0 exit={rc} entry=ran clean=1\tnt=1"
   | ["proc", _tree, rc, _args] =>
     -- the real executable: `main` calls RunPackedBinary first and unconditionally
     -- (`Gen.mainCallsRunPackedFirst`, obligation `main_runs_packed_first`), so the command line
     -- does not matter; the interpreter binary does not contain the marker (`geom_marker_assembled`)
     s!"proc srcmarker=0 exit={rc} entry=ran clean=1\tnt=1"
-  | [packed, n, kind, seed, plants, ws, _tree, rc, zip4] =>
+  | [packed, n, kind, seed, plants, ws, tree, rc, zip4] =>
+    -- a tree marked `r` (root file named like the archive's entry member; a symbolic link that cannot
+    -- be packed as a file) must be refused by the pack tool with an error: no executable is built
+    if packed = "1" ∧ tree.endsWith "r" then "pack-refused\tnt=1" else
     match n.toNat?, kind.toNat?, seed.toNat?, parsePlants plants, hexDecode ws, hexDecode zip4 with
     | some n, some kind, some seed, some plants, some ws, some zip4 =>
       let M := geom.marker
